@@ -3,7 +3,6 @@
 use crate::execution::chunk::DataChunk;
 use crate::execution::operators::OperatorError;
 use crate::execution::pipeline::{ChunkSizeHint, PushOperator, Sink};
-use crate::execution::selection::SelectionVector;
 
 /// Push-based limit operator.
 ///
@@ -56,9 +55,8 @@ impl PushOperator for LimitPushOperator {
             // Need to truncate chunk
             self.passed += remaining;
 
-            // Create selection for first `remaining` rows
-            let selection = SelectionVector::new_all(remaining);
-            let truncated = chunk.filter(&selection);
+            // Keep the first `remaining` of the rows the chunk selects
+            let truncated = chunk.slice(0, remaining);
 
             sink.consume(truncated)?;
             Ok(false) // Limit reached
@@ -131,9 +129,8 @@ impl PushOperator for SkipPushOperator {
             // Skip first `remaining_to_skip` rows, pass the rest
             self.skipped = self.skip;
 
-            let start = remaining_to_skip;
-            let selection = SelectionVector::from_predicate(chunk_len, |i| i >= start);
-            let passed = chunk.filter(&selection);
+            // Drop the first `remaining_to_skip` of the rows the chunk selects
+            let passed = chunk.slice(remaining_to_skip, chunk_len - remaining_to_skip);
 
             sink.consume(passed)
         }
@@ -186,9 +183,7 @@ impl PushOperator for SkipLimitPushOperator {
 
             // Partial skip
             self.skip.skipped = self.skip.skip;
-            let start = remaining_to_skip;
-            let selection = SelectionVector::from_predicate(chunk_len, |i| i >= start);
-            let passed = chunk.filter(&selection);
+            let passed = chunk.slice(remaining_to_skip, chunk_len - remaining_to_skip);
 
             return self.limit.push(passed, sink);
         }
@@ -330,5 +325,47 @@ mod tests {
         op.finalize(&mut sink).unwrap();
 
         assert_eq!(sink.row_count(), 3); // 3, 4, 5 (skip 1,2; limit 3)
+    }
+
+    fn create_selected_chunk() -> DataChunk {
+        use crate::execution::selection::SelectionVector;
+
+        // physical rows -5 1 -5 2 -5 3, of which positions 1, 3, 5 are selected
+        let mut chunk = create_test_chunk(&[-5, 1, -5, 2, -5, 3]);
+        let mut selection = SelectionVector::new_empty();
+        for i in [1, 3, 5] {
+            selection.push(i);
+        }
+        chunk.set_selection(selection);
+        chunk
+    }
+
+    fn first_column(sink: CollectorSink) -> Vec<Value> {
+        sink.into_chunks()
+            .iter()
+            .flat_map(|c| {
+                c.selected_indices()
+                    .map(|i| c.column(0).unwrap().get_value(i).unwrap())
+                    .collect::<Vec<_>>()
+            })
+            .collect()
+    }
+
+    #[test]
+    fn test_limit_and_skip_on_chunk_with_selection_vector() {
+        let mut limit = LimitPushOperator::new(2);
+        let mut sink = CollectorSink::new();
+        limit.push(create_selected_chunk(), &mut sink).unwrap();
+        assert_eq!(first_column(sink), vec![Value::Int64(1), Value::Int64(2)]);
+
+        let mut skip = SkipPushOperator::new(1);
+        let mut sink = CollectorSink::new();
+        skip.push(create_selected_chunk(), &mut sink).unwrap();
+        assert_eq!(first_column(sink), vec![Value::Int64(2), Value::Int64(3)]);
+
+        let mut both = SkipLimitPushOperator::new(1, 1);
+        let mut sink = CollectorSink::new();
+        both.push(create_selected_chunk(), &mut sink).unwrap();
+        assert_eq!(first_column(sink), vec![Value::Int64(2)]);
     }
 }
